@@ -12,6 +12,7 @@ import (
 
 	"github.com/rulego/streamsql"
 	"github.com/rulego/streamsql/functions"
+	"github.com/rulego/streamsql/utils/cast"
 	"github.com/rulego/streamsql/types"
 )
 
@@ -83,7 +84,44 @@ func registerBoom() {
 				}
 				return args[0], nil
 			})
+		_ = functions.Register(&boomSum{BaseFunction: functions.NewBaseFunction("vboomsum", functions.TypeAggregation, "verif", "sum whose Result panics when a 3 was added", 1, -1)})
 	})
+}
+
+// boomSum is a user-defined aggregate with a bug: a sum whose Result() panics when one of the added values was 3.
+type boomSum struct {
+	*functions.BaseFunction
+	sum  float64
+	n    int
+	boom bool
+}
+
+func (f *boomSum) Validate(args []any) error { return f.ValidateArgCount(args) }
+func (f *boomSum) Execute(ctx *functions.FunctionContext, args []any) (any, error) {
+	return nil, nil
+}
+func (f *boomSum) New() functions.AggregatorFunction { return &boomSum{BaseFunction: f.BaseFunction} }
+func (f *boomSum) Add(v any) {
+	if x, err := cast.ToFloat64E(v); err == nil {
+		f.sum += x
+		f.n++
+		if x == 3 {
+			f.boom = true
+		}
+	}
+}
+func (f *boomSum) Result() any {
+	if f.boom {
+		panic("vboomsum: injected panic of a user aggregate")
+	}
+	if f.n == 0 {
+		return nil
+	}
+	return f.sum
+}
+func (f *boomSum) Reset() { f.sum, f.n, f.boom = 0, 0, false }
+func (f *boomSum) Clone() functions.AggregatorFunction {
+	return &boomSum{BaseFunction: f.BaseFunction, sum: f.sum, n: f.n, boom: f.boom}
 }
 
 func RunLife(sc LifeScenario) (evs []Ev, inconclusive string) {
